@@ -497,3 +497,6 @@ OUTSIDE = ["two SIMULTANEOUS writers on the same files (the third process of the
            "partial flushes are taken at representative boundaries (nothing, every line boundary, mid-text, 3 bytes short, all), not at every byte"]
 TRUSTED = ["CrossHair/z3", "MFS/MPath: model of pathlib.Path and buffered file writes (open('w') truncates at once, data reaches the file at close or up to a flush boundary at a crash, replace is atomic, a killed process runs no handlers)",
            "FastaIndex built with object.__new__ (its constructor only derives the two cache paths)"]
+
+TECHNIQUE = ("CrossHair + z3 over a model file system: symbolic crash point, flush boundary, clock ticks, deletions and reader/writer interleaving around the real auto_load / run_indexing")
+LEVEL_TEXT = ("Crash points, timestamps (incl. equal ones) and every reader/writer interleaving at file-operation granularity are symbolic variables; tests cannot schedule these.")
